@@ -1,12 +1,20 @@
-#!/bin/sh
+#!/bin/bash
 # every filed behaviour-preserving refactoring against every check (claimed ones and the extras): all must stay silent.
 # A patch that no longer applies to the current tree (later fix: commits touched the same lines) is reported as such.
+# EQUIV_JOBS (default 3) refactorings are run side by side.
 cd "$(dirname "$0")/.." && V=$(pwd)   # (a snapshot of /verif runs its own copy)
 props="$(python3 -c "import json;print(' '.join(c['property_id'] for c in json.load(open('MANIFEST.json'))['checks']))") X01 X02"
-for d in equivalent/*/; do
-  id=$(basename $d)
+one() {
+  d=$1; id=$(basename $d)
   out=$(/venv/bin/python -m harness.mutate $d/patch.diff $props 2>&1)
-  if echo "$out" | grep -q "PATCH-FAILED"; then echo "$id: patch does not apply to the current tree"; continue; fi
+  if echo "$out" | grep -q "PATCH-FAILED"; then echo "$id: patch does not apply to the current tree"; return; fi
   bad=$(echo "$out" | grep "^MUTANT" | grep -v "exit=0" | tr '\n' ' ')
   echo "$id: $(echo "$out" | grep -c '^MUTANT.*exit=0') checks silent ${bad:+; NOT SILENT: $bad}"
+}
+n=0
+for d in ${@:-equivalent/*/}; do
+  one ${d%/} &
+  n=$((n+1))
+  if [ $n -ge ${EQUIV_JOBS:-3} ]; then wait -n 2>/dev/null || wait; n=$((n-1)); fi
 done
+wait
